@@ -138,6 +138,7 @@ var leafTypes = map[string]reflect.Type{
 	"M_val": reflect.TypeOf(MVal{}), "M_ptr": reflect.TypeOf(MPtr{}), "TM_val": reflect.TypeOf(TMVal{}), "TM_ptr": reflect.TypeOf(TMPtr{}),
 	"MU_both": reflect.TypeOf(MUBoth{}), "TMK": reflect.TypeOf(TMK{}),
 	"MI": reflect.TypeOf(MInt(0)), "TS": reflect.TypeOf(TStr("")), "TI": reflect.TypeOf(TInt(0)),
+	"MB": reflect.TypeOf(mtBoth{}), "NPI": reflect.TypeOf(mtPI(nil)),
 }
 
 var (
@@ -172,6 +173,8 @@ func jTypeOf(s *jShape) reflect.Type {
 			t = reflect.ArrayOf(1, e) // stored like its element in an interface: directly when the element is a pointer or a map
 		case "mapts":
 			t = reflect.MapOf(reflect.TypeOf(TStr("")), e)
+		case "mapkm":
+			t = reflect.MapOf(reflect.TypeOf(mtKM(0)), e)
 		case "mapstr":
 			t = reflect.MapOf(reflect.TypeOf(""), e)
 		case "mapint":
@@ -283,6 +286,11 @@ func leafValues(k string) []any {
 		return []any{TStr(""), TStr("k"), TStr("<b>")}
 	case "TI":
 		return []any{TInt(0), TInt(7), TInt(-300)}
+	case "MB":
+		return []any{mtBoth{}, mtBoth{7}}
+	case "NPI":
+		one, neg := 1, -12
+		return []any{mtPI(nil), mtPI(&one), mtPI(&neg)}
 	}
 	panic("leafValues " + k)
 }
@@ -363,11 +371,12 @@ func valuesOf(s *jShape, r *rng, limit int) []reflect.Value {
 			a.Index(1).Set(elems[(i+1)%len(elems)])
 			add(a)
 		}
-	case "mapstr", "mapint", "maptm", "mapts":
+	case "mapstr", "mapint", "maptm", "mapts", "mapkm":
 		add(zero)
 		add(reflect.MakeMap(t))
 		keys := map[string][]any{"mapstr": {"b", "a", "<k>", "", "10", "9", "B", "é", "a\x00", "ab"}, "mapint": {2, 10, -1, -2, -10, 0, 9, -9, 100, -100},
-			"maptm": {TMK{"x"}, TMK{""}, TMK{"a"}, TMK{"X"}}, "mapts": {TStr("b"), TStr(""), TStr("a"), TStr("<k>"), TStr("text:z")}}[s.K]
+			"maptm": {TMK{"x"}, TMK{""}, TMK{"a"}, TMK{"X"}}, "mapts": {TStr("b"), TStr(""), TStr("a"), TStr("<k>"), TStr("text:z")},
+			"mapkm": {mtKM(2), mtKM(10), mtKM(-1), mtKM(0), mtKM(9)}}[s.K]
 		// one map with every key (the order of the members is the sorted order of the key strings)
 		if len(elems) > 0 {
 			m := reflect.MakeMap(t)
@@ -397,6 +406,8 @@ func valuesOf(s *jShape, r *rng, limit int) []reflect.Value {
 					kv = reflect.ValueOf((i*7)%24 - 12)
 				case "mapts":
 					kv = reflect.ValueOf(TStr(fmt.Sprintf("s%02d", (i*7)%24)))
+				case "mapkm":
+					kv = reflect.ValueOf(mtKM((i*7)%24 - 12))
 				default:
 					kv = reflect.ValueOf(TMK{fmt.Sprintf("t%02d", (i*7)%24)})
 				}
